@@ -682,7 +682,7 @@ find_schema_child(const struct lysc_node *sparent, const char *modname_colon_nam
 #define REFUSE(why) do { fputs(" R:" why, stdout); return; } while (0)
 #define MARK(f) do { if (law_mode) { fputs(" X:" f, stdout); fflush(stdout); } } while (0)
 
-/* a sibling ring that does not end (F140): nothing below may be walked any more */
+/* a sibling ring that does not end (F112): nothing below may be walked any more */
 static int
 forest_cyclic(void)
 {
@@ -865,7 +865,7 @@ run_op(char *op, int last)
             }
         }
         if (n != t && n->schema && !t->schema) MARK("F141");   /* no schema check at all next to an opaque sibling */
-        if (n != t && lyd_first_sibling(t) == n) MARK("F140");
+        if (n != t && lyd_first_sibling(t) == n) MARK("F112");
         if (n != t && is_multi_move(n)) MARK("F144");
         done(lyd_insert_sibling(t, n, NULL), search);
     } else if ((!strcmp(a[0], "ins_before") || !strcmp(a[0], "ins_after")) && na == 3) {
